@@ -41,9 +41,30 @@ fn run_one(input: &[u8], kind: Kind, base: Option<Element<String>>) -> (Result<E
     }
 }
 
+/// Debug form of the error that an initial parse of an element-less input yields (computed once from the code under
+/// test): an error for undecodable bytes or a broken attribute list must not be this one
+fn no_element_error() -> &'static str {
+    static S: std::sync::OnceLock<String> = std::sync::OnceLock::new();
+    S.get_or_init(|| match into_struct(&mut Reader::from_reader(&b"<!-- nothing -->"[..])) {
+        Err(e) => format!("{:?}", e),
+        Ok(_) => "<no error>".to_string(),
+    })
+}
+
+/// Only the syntax-error variant is named: the statement says what it carries. For the other conditions the statement
+/// demands an error (any variant, so that a reworked error type neither breaks the build nor raises an alarm) that is
+/// not a syntax error, not the "no element" error, and says something.
 pub fn judge(res: &Result<Element<String>, ParserError>, exp: &Expect, initial: bool) -> Result<(), String> {
+    let said_something = |e: &ParserError| -> Result<(), String> {
+        if format!("{}", e).trim().is_empty() {
+            Err(format!("Display of the error {:?} is empty", e))
+        } else {
+            Ok(())
+        }
+    };
     match (exp, res) {
-        (Expect::Clean { elements: 0, .. }, Err(ParserError::ParsingError(_))) if initial => Ok(()),
+        (Expect::Clean { elements: 0, .. }, Err(ParserError::QuickXmlError(pos, e))) if initial => Err(format!("the input contains no element and no syntax error, but the initial parse reports a syntax error at {}: {:?}", pos, e)),
+        (Expect::Clean { elements: 0, .. }, Err(e)) if initial => said_something(e),
         (Expect::Clean { elements: 0, .. }, Ok(_)) if initial => Err("the input contains no element but the initial parse returned Ok".into()),
         (Expect::Clean { .. }, Ok(_)) => Ok(()),
         (Expect::Clean { elements, .. }, Err(e)) => Err(format!("no error condition in the input ({} elements) but the call failed with {:?}", elements, e)),
@@ -55,18 +76,14 @@ pub fn judge(res: &Result<Element<String>, ParserError>, exp: &Expect, initial: 
                 return Err(format!("reader position is {} (error position {}) but the returned error carries {}", buffer_position, error_position, pos));
             }
             // the statement is about what the error value carries; of its Display we only require that it says something
-            let shown = format!("{}", res.as_ref().err().unwrap());
-            if shown.trim().is_empty() {
-                return Err(format!("Display of the syntax error at position {} is empty", pos));
-            }
-            Ok(())
+            said_something(res.as_ref().err().unwrap())
         }
-        (Expect::Utf8 { .. }, Err(ParserError::FromUtf8Error(_))) => Ok(()),
-        (Expect::Attr { debug, .. }, Err(ParserError::AttrError(e))) => {
-            if format!("{:?}", e) != *debug {
-                return Err(format!("attribute iterator reports {} but the returned error carries {:?}", debug, e));
+        (Expect::Utf8 { .. } | Expect::Attr { .. }, Err(ParserError::QuickXmlError(pos, e))) => Err(format!("expected {:?} but the call reports a syntax error at {}: {:?}", exp, pos, e)),
+        (Expect::Utf8 { .. } | Expect::Attr { .. }, Err(e)) => {
+            if format!("{:?}", e) == no_element_error() {
+                return Err(format!("expected {:?} but the call failed with {:?}", exp, e));
             }
-            Ok(())
+            said_something(e)
         }
         (exp, Ok(_)) => Err(format!("the input has an error condition ({:?}) but the call returned Ok", exp)),
         (exp, Err(e)) => Err(format!("expected {:?} but the call failed with {:?}", exp, e)),
